@@ -143,3 +143,44 @@ func TestWeightOwnershipRoot(t *testing.T) {
 	ev.Rapid(t, 1500, 20000)
 	rapid.Check(t, run)
 }
+
+// Weights at the top of the 64-bit range: three or four keys whose weights add up to more than 2^63 (but less than
+// 2^64), inserted through existing branches, committed, reloaded, one of them removed and re-added.
+func TestHugeWeights(t *testing.T) {
+	ev.Guard(t, "TestHugeWeights", func() {
+		seed := ev.SeedFor("TestHugeWeights")
+		for ci, ws := range [][]uint64{{1 << 62, 1 << 62, 1 << 62}, {1<<63 - 1, 1, 1 << 62}, {1 << 61, 1 << 62, 1<<62 + 5, 1 << 61}, {1 << 63, 7, 1 << 62}} {
+			db := memkv.New()
+			var m *wmkit.Machine
+			m = wmkit.New(db, func(f string, a ...any) {
+				t.Fatalf("weights %v: %s\nhistory: %s", ws, fmt.Sprintf(f, a...), m.History())
+			})
+			keys := make([][]byte, len(ws))
+			for i := range ws {
+				k := make([]byte, 32)
+				k[0] = byte(0x10*i) | 0x01 // different first nibbles: all below the root branch
+				k[1] = byte(seed) + byte(ci)
+				if i >= 2 {
+					k[0] = keys[i-2][0] // and two pairs that share a deeper branch
+					k[5] = byte(i)
+				}
+				keys[i] = k
+			}
+			for i, w := range ws {
+				m.UpdateW(keys[i], []byte{byte(i), 0x77, byte(ci)}, w)
+			}
+			m.Commit([]int{0, 1, 2, 64}[ci%4])
+			m.Observe(nil)
+			m.Reload()
+			m.Observe(nil)
+			e := m.Model[string(keys[1])]
+			m.Delete(keys[1])
+			m.Rewrite(e)
+			m.UpdateW(keys[0], []byte{9, 0x78, byte(ci)}, ws[0]-1)
+			m.Commit(1)
+			m.Observe(nil)
+			wmkit.ObserveTrie(wmkit.Reopened(db, m.T.Root(), m.T.Weight()), m.Model, nil, m.Fail, "reopened")
+			ev.Case(fmt.Sprintf("huge/%d", ci), true, "weights-summing-beyond-2^63")
+		}
+	})
+}
